@@ -13,6 +13,7 @@ import (
 
 	"verif/ev"
 	"verif/ringseek"
+	"verif/ringtyped"
 )
 
 // ---- Ring ----
@@ -681,9 +682,19 @@ func main() {
 	// cold start: one fresh process per case
 	r.CasesProc("cold-start/ring", 8, ev.Opt{Procs: 8, HangViolation: true}, ringCase)
 	r.CasesProc("cold-start/syncring", 8, ev.Opt{Procs: 8, HangViolation: true}, syncCase)
+	r.Cases("typed", r.N(4000, 80000), ev.Opt{HangViolation: true, MaxCaseSeconds: 60}, ringtyped.Case)
+	r.Require("typed_nil_elements_popped", 2000)
+	r.Require("typed_ring_sequences", 2000)
 	r.Cases("syncring-bigcap", len(bigCaps), ev.Opt{HangViolation: true, Workers: 4}, bigCapCase)
+	for _, p := range []string{"3", "5", "7"} {
+		r.CasesProc("syncring-bigcap/P"+p, len(bigCaps), ev.Opt{Procs: 2, HangViolation: true, Env: []string{"GOMAXPROCS=" + p}}, bigCapCase)
+	}
 	r.Cases("syncring-wrap", r.N(20000, 1000000), ev.Opt{HangViolation: true}, wrapCase)
-	r.Cases("syncring-honest", 6, ev.Opt{MaxCaseSeconds: 3000}, honestCase)
+	nh := 6
+	if !r.Thorough() && !seekUsable {
+		nh = 3 // each of them is then a full 2^32 run
+	}
+	r.Cases("syncring-honest", nh, ev.Opt{MaxCaseSeconds: 3000, NoRerun: true, AlwaysLog: true}, honestCase)
 	// the same sequential workloads once under -race (checkptr on the reflection seek)
 	r.CasesProc("syncring-wrap/checkptr", r.N(500, 5000), ev.Opt{Bin: "race", Procs: 4}, wrapCase)
 	r.Require("grid_points", int64(len(grid)))
@@ -693,7 +704,7 @@ func main() {
 	r.Require("quiet_windows_closed", 3000)
 	r.Require("bigcap_cases", int64(len(bigCaps)))
 	if r.Thorough() || !seekUsable {
-		r.Require("honest_wraps", 6)
+		r.Require("honest_wraps", int64(nh))
 	}
 	if ok, why := ringseek.Usable(2); ok {
 		r.Require("wrap_crossings_2^32", 5000)
